@@ -948,3 +948,67 @@ mod tests {
         assert_eq!(all_ips, HashSet::from([addr_b]));
     }
 }
+
+#[cfg(feature = "verif-hooks")]
+impl DnsCache {
+    /// Read-only summary (and optionally every record) for the verification harness.
+    pub(crate) fn verif_snapshot(
+        &self,
+        with_records: bool,
+    ) -> (
+        Vec<crate::verif::CacheMapSummary>,
+        usize,
+        Vec<crate::verif::CachedRecord>,
+    ) {
+        use crate::verif::{CacheMapSummary, CachedRecord};
+
+        let mut summaries = Vec::new();
+        let mut records = Vec::new();
+        let maps: [(&'static str, &HashMap<String, Vec<DnsRecordIntf>>); 5] = [
+            ("ptr", &self.ptr),
+            ("srv", &self.srv),
+            ("txt", &self.txt),
+            ("addr", &self.addr),
+            ("nsec", &self.nsec),
+        ];
+        for (map, content) in maps {
+            let mut summary = CacheMapSummary {
+                map,
+                keys: content.len(),
+                ..Default::default()
+            };
+            for (key, list) in content.iter() {
+                if list.is_empty() {
+                    summary.empty_keys += 1;
+                }
+                for item in list.iter() {
+                    let rec = item.record.get_record();
+                    summary.records += 1;
+                    let expire = rec.get_expire_time();
+                    let refresh = rec.get_refresh_time();
+                    summary.earliest_expire =
+                        Some(summary.earliest_expire.map_or(expire, |e: u64| e.min(expire)));
+                    summary.earliest_refresh =
+                        Some(summary.earliest_refresh.map_or(refresh, |e: u64| e.min(refresh)));
+                    if with_records {
+                        records.push(CachedRecord {
+                            map,
+                            key: key.clone(),
+                            name: item.record.get_name().to_string(),
+                            ty: item.record.get_type() as u16,
+                            flush: item.record.get_cache_flush(),
+                            ttl: rec.get_ttl(),
+                            created: rec.get_created(),
+                            expires: expire,
+                            refresh,
+                            if_index: item.src_intf.index,
+                            rdata: item.record.rdata_print(),
+                        });
+                    }
+                }
+            }
+            summaries.push(summary);
+        }
+        (summaries, self.subtype.len(), records)
+    }
+}
